@@ -9,3 +9,8 @@ package connection
 //@ func (*Conn).receiveRoutine
 //@   assert-at send each-frame-in-a-buffer-of-its-own: iterfresh(value) && off(value) == 0
 //@   assert-at call readNetConn#2 payload-read-into-the-frame-that-is-delivered: iterfresh(arg1) && off(arg1) == 0 && len(arg1) == size
+
+// a frame (length prefix or payload) is read completely or the read fails (C16: framing is lossless)
+//@ func (*Conn).readNetConn
+//@   assert-at call ReadFull the-whole-buffer-is-filled-from-the-connection: arg0 == conn.c && arg1 == data
+//@   assert-at return error-of-the-read-is-reported: result == lastresult("ReadFull", 1)
